@@ -312,7 +312,8 @@ class WorldC16(World):
             reg.clear()
         try:
             with warnings.catch_warnings(record=True) as wl:
-                warnings.simplefilter('always')
+                # no filter of our own: a signal is what reaches a caller running under the interpreter's default
+                # filters (workers run with -W default); the once-per-location registry was cleared above
                 try:
                     val = eq.get_net_comp(T=T, P=P)
                     st = 'ok'
